@@ -167,6 +167,13 @@ Provisos(S) == /\ \A x, y \in S : OneContent(x, y)
 
 Max(x, y) == IF x >= y THEN x ELSE y
 
+(* Named deviation ZeroTimestamp: a missing entry is compared as "stamped   *)
+(* 0, not LEFT", so an entry that really is stamped 0 is never accepted by  *)
+(* a replica that lacks it - unless it is a removal, which wins the tie     *)
+(* against the missing entry.  Real timestamps are time.Now().Unix() > 0;   *)
+(* the laws therefore assume PositiveTs, the replayed cases do not.         *)
+ZeroTimestamp(e) == Present(e) /\ e.ts = 0 => (Supersedes(NormEntry(e), Absent) <=> IsLeft(e))
+
 (* Every law that needs the provisos is stated as  Law == Provisos => LawB  *)
 (* so that a model can evaluate the provisos once per operand tuple.        *)
 
